@@ -127,6 +127,26 @@ def main(argv=None):
             obligations.append((rep, ob))
         if args.v:
             print(f"explored {con.target}: paths={rep.paths} obligations={len(seen)} undecided={rep.undecided} ({rep.explore_s:.1f}s)")
+    # reachability guards: every cover clause of a contract must be reachable on some explored path
+    uncovered = []
+    cover_report = []
+    for rep in reports:
+        for f in rep.con.clause_list("covers"):
+            cands = rep.covers.get(f.__name__, [])
+            ok = any(z3.is_true(t) for _, t in cands)
+            how = "literally true on a path" if ok else None
+            if not ok:
+                for pc, t in cands[:6]:
+                    sv = z3.Solver()
+                    sv.set("timeout", 8000)
+                    sv.add(*pc)
+                    sv.add(t)
+                    if sv.check() == z3.sat:
+                        ok, how = True, "satisfiable with a path condition (z3)"
+                        break
+            cover_report.append({"function": rep.target, "contract": rep.con.__name__, "cover": f.__name__, "reached": ok, "how": how})
+            if not ok and not rep.undecided:
+                uncovered.append(f"{rep.target}#{rep.con.__name__}/covers.{f.__name__}")
     # drop trivially true goals (counted as discharged by simplification)
     jobs = []
     results = {}
@@ -141,15 +161,20 @@ def main(argv=None):
     lock = threading.Lock()
 
     known_clauses = {f["clause"] for f in load_known().get("open", []) if f["property"] == prop}
+    slice_stats = {}
 
     def work(job):
         idx, text = job
         rep, ob = obligations[idx]
-        if ob.meta.get("pc_mark") is not None and ob.clause not in known_clauses:
+        # proving from the hypotheses since the loop head alone: only where it pays (per clause: given up after three
+        # failures without a success)
+        st_ = slice_stats.setdefault(ob.clause, [0, 0])
+        if ob.meta.get("pc_mark") is not None and ob.clause not in known_clauses and not (st_[0] == 0 and st_[1] >= 3):
             try:
                 with lock:
                     stext = obligation_smt2(env, ob, sliced=True)
                 rs = solve_text(stext, ob.clause + ".slice", min(budget, 10))
+                st_[0 if rs.status == "discharged" else 1] += 1
                 if rs.status == "discharged":
                     return idx, (rs.status, rs.backend, rs.time, rs.detail, rs.file)
                 if rs.file:
@@ -370,6 +395,7 @@ def main(argv=None):
             ],
             "clauses": {c: {"instances": d["n"], "discharged": d["discharged"]} for c, d in sorted(by_clause.items())},
             "bounded_standins": standins,
+            "covers": cover_report,
             "undecided": [{"what": a, "why": b} for a, b in undecided],
             "gone_since_ledger": gone,
             "known_findings": sorted({f["clause"] for f, _ in known_hits}),
@@ -403,7 +429,15 @@ def main(argv=None):
     if n_obl == 0 or zero:
         print(f"CHECKER-ERROR zero obligations generated ({zero})")
         return 3
-    return 1 if violations else 0
+    for u in uncovered:
+        print(f"CHECKER-ERROR cover not reached (the contract may hold vacuously): {u}")
+    crashed = [r for r in standins if r.get("error")] + ([{"function": "covers", "error": "unreached: " + ", ".join(uncovered)}] if uncovered else [])
+    for r in crashed:
+        if r.get("function") != "covers":
+            print(f"CHECKER-ERROR bounded stand-in of {r.get('function')} crashed: {r['error'][:300]}")
+    if violations:
+        return 1
+    return 3 if crashed else 0
 
 
 if __name__ == "__main__":
